@@ -1,6 +1,7 @@
 from __future__ import absolute_import, division, unicode_literals
 
 from . import base
+from ..constants import namespaces
 
 
 class Filter(base.Filter):
@@ -15,15 +16,31 @@ class Filter(base.Filter):
         if previous1 is not None:
             yield previous2, previous1, None
 
+    def is_html(self, token):
+        """Tags can only be omitted on HTML elements, and only HTML elements
+        count as the neighbours the omission rules name."""
+        return token.get("namespace") in (None, namespaces["html"])
+
+    def html_neighbour(self, token):
+        # A tag of a foreign (SVG, MathML, ...) element never matches any of
+        # the element names the rules below look for
+        if (token is not None and "name" in token and not self.is_html(token)):
+            token = dict(token, name=None)
+        return token
+
     def __iter__(self):
         for previous, token, next in self.slider():
             type = token["type"]
             if type == "StartTag":
-                if (token["data"] or
-                        not self.is_optional_start(token["name"], previous, next)):
+                if (token["data"] or not self.is_html(token) or
+                        not self.is_optional_start(token["name"],
+                                                   self.html_neighbour(previous),
+                                                   self.html_neighbour(next))):
                     yield token
             elif type == "EndTag":
-                if not self.is_optional_end(token["name"], next):
+                if (not self.is_html(token) or
+                        not self.is_optional_end(token["name"],
+                                                 self.html_neighbour(next))):
                     yield token
             else:
                 yield token
